@@ -167,7 +167,9 @@ BuildOw(s) ==
 
 RefNames == {<<"Foo">>, <<"XFoo">>, <<"FooX">>, <<"pkg", "Foo">>, <<"other", "pkg", "Foo">>, <<"g", "Foo">>,
              <<"kg", "Foo">>, <<"IBinder">>, <<"ParcelFileDescriptor">>,
-             <<"android", "os", "ParcelFileDescriptor">>, <<"android", "os", "IBinder">>}
+             <<"android", "os", "ParcelFileDescriptor">>, <<"android", "os", "IBinder">>,
+             \* built-ins that may NOT be written qualified without an import: they fit no rule and stay unresolved
+             <<"java", "os", "FileDescriptor">>, <<"android", "os", "ParcelableHolder">>}
 ImpCands == {<<"pkg", "Foo">>, <<"other", "pkg", "Foo">>, <<"pkg", "XFoo">>,
              <<"android", "os", "IBinder">>, <<"android", "os", "ParcelFileDescriptor">>}
 FwdCands == {<<"Foo">>, <<"pkg", "Foo">>, <<"IBinder">>}
